@@ -374,6 +374,25 @@ pub fn run(o: &Opts) {
     st.rule = "cases: every prefix (cut at every character) of generated valid ledgers; random strings over the ledger alphabet and arbitrary Unicode; generated ledgers with deleted/inserted/swapped/mutated lines; 100..100000 nested parentheses, minus signs and repeated lines; literals of 27..100000 digits; zero rates and amounts in every position; include graphs with self-includes and cycles (Loader::load on a FakeFileSystem). Each runs in a child process (5 s watchdog): parse_ledger, FormatOptions::format, report::process, balance and postings queries. non-trivial = the text is not accepted as a fully valid ledger (an error path ran); distinct by text".to_string();
     st.assumptions.push("report::process and the queries are skipped for literals beyond 12 digits and nesting beyond 200 (the property exempts numbers outside the representable decimal range)".to_string());
     let mut r = Rng::new(o.seed, 6);
+    // replay of one recorded text
+    let replay: Option<String> = o
+        .extra
+        .iter()
+        .position(|a| a == "--replay")
+        .and_then(|k| o.extra.get(k + 1))
+        .and_then(|p| std::fs::read_to_string(p).ok())
+        .and_then(|t| serde_json::from_str::<Value>(&t).ok())
+        .and_then(|v| v.get("text").and_then(|x| x.as_str()).map(|s| s.to_string()));
+    if let Some(text) = replay {
+        let obs = child::run_batch("c06", &[input_json(&text, true)], 5000);
+        let (t, v, _) = obs_term(&obs[0]);
+        count_obs(&mut st, &obs[0], &v);
+        st.eval(&text, true);
+        let rep = json!({"property": "C06", "text": text, "stream": "replay", "impl": v});
+        sh.push(format!("Single {} {}", parseobs::text(&text), t), vec![rep]);
+        sh.finish(&st);
+        return;
+    }
     // 1. single texts
     let items = singles(o, &mut r);
     for chunk in items.chunks(100) {
